@@ -13,6 +13,7 @@ use std::cell::RefCell;
 use std::collections::VecDeque;
 use std::panic::{self, AssertUnwindSafe};
 use std::sync::atomic::{AtomicBool, AtomicU64, Ordering};
+use std::sync::atomic::AtomicU8;
 use std::sync::{Arc, Mutex, MutexGuard};
 use std::thread::{self, JoinHandle, Thread};
 use std::time::{Duration, Instant};
@@ -106,6 +107,8 @@ pub struct SimConfig {
     pub sched: SchedMode,
     /// Preempt at `sched_point` hooks inside an item.
     pub preempt_hooks: bool,
+    /// Preempt at the basic-block guards of the instrumented library (see `bbguard`).
+    pub preempt_bb: bool,
     /// Mean number of yield points between two preemptions (Interleave).
     pub mean_gap: u32,
     pub pct_depth: u32,
@@ -121,6 +124,7 @@ impl Default for SimConfig {
             split: SplitMode::Adaptive,
             sched: SchedMode::Interleave,
             preempt_hooks: true,
+            preempt_bb: false,
             mean_gap: 8,
             pct_depth: 2,
             watchdog_s: 20,
@@ -165,6 +169,18 @@ pub struct Stats {
     pub clock_drift_ops: u64,
     pub clock_jumps: u64,
     pub clock_ns_added: u64,
+    /// Basic-block guards: times the scheduler looked at one (countdown / rare site), preemptions taken there.
+    pub bb_yields: u64,
+    pub bb_rare_yields: u64,
+    pub preempt_bb: u64,
+    pub preempt_bb_rare: u64,
+    /// Emulated futex: waits that parked a worker in the simulator, wakes that released one, waits that timed out,
+    /// sleeps turned into simulated time.
+    pub futex_waits: u64,
+    pub futex_wakes: u64,
+    pub futex_timeouts: u64,
+    pub sleeps_simulated: u64,
+    pub bb_guards_passed: u64,
 }
 
 impl Stats {
@@ -197,6 +213,15 @@ impl Stats {
         self.clock_drift_ops += o.clock_drift_ops;
         self.clock_jumps += o.clock_jumps;
         self.clock_ns_added += o.clock_ns_added;
+        self.bb_yields += o.bb_yields;
+        self.bb_rare_yields += o.bb_rare_yields;
+        self.preempt_bb += o.preempt_bb;
+        self.preempt_bb_rare += o.preempt_bb_rare;
+        self.futex_waits += o.futex_waits;
+        self.futex_wakes += o.futex_wakes;
+        self.futex_timeouts += o.futex_timeouts;
+        self.sleeps_simulated += o.sleeps_simulated;
+        self.bb_guards_passed += o.bb_guards_passed;
     }
 }
 
@@ -219,6 +244,15 @@ pub enum YieldKind {
     Wait,
     /// Forced: worker has nothing to do.
     Idle,
+    /// A basic-block guard whose countdown ran out (like `Hook`, for code without hooks).
+    Bb,
+    /// A basic-block guard at a rarely executed site: treated like a job boundary.
+    BbRare,
+    /// Forced: the worker waits on a futex (a std lock, condvar, channel, `park`) that another
+    /// simulated thread has to release.
+    Blocked,
+    /// `thread::sleep` on a simulated thread: simulated time has passed; treated like a job boundary.
+    Sleep,
 }
 
 // ---------------------------------------------------------------------------
@@ -253,8 +287,12 @@ impl<F: FnOnce(bool) -> R + Send, R: Send> StackJob<F, R> {
     }
     unsafe fn exec(ptr: *const (), migrated: bool) {
         let this = &*(ptr as *const Self);
-        let f = this.func.lock().unwrap().take().expect("job executed twice");
+        let f = {
+            let _i = InternalSection::new();
+            this.func.lock().unwrap().take().expect("job executed twice")
+        };
         let r = panic::catch_unwind(AssertUnwindSafe(|| f(migrated)));
+        let _i = InternalSection::new();
         *this.result.lock().unwrap() = Some(r);
         this.done.store(true, Ordering::SeqCst);
     }
@@ -267,6 +305,7 @@ impl<F: FnOnce(bool) -> R + Send, R: Send> StackJob<F, R> {
         }
     }
     fn take_result(&self) -> thread::Result<R> {
+        let _i = InternalSection::new();
         self.result.lock().unwrap().take().expect("job result missing")
     }
 }
@@ -328,6 +367,9 @@ struct Worker {
     priority: i64,
     handle: Option<JoinHandle<()>>,
     ran_anything: bool,
+    /// Emulated futex wait: the flag another thread's wake sets, and whether the wait has a timeout.
+    futex: Option<Arc<AtomicU8>>,
+    futex_timeout: bool,
 }
 
 struct Pool {
@@ -389,7 +431,49 @@ pub struct Sim {
     /// the current operation; such calls are only counted.
     hooks_live: AtomicBool,
     hooks_passed: AtomicU64,
+    bb_passed: AtomicU64,
 }
+
+/// The simulator's lock on its own state. While one is alive the thread counts as being inside
+/// the simulator: basic-block guards and emulated system calls pass through (the lock is not
+/// re-entrant, and a thread must never be parked by the scheduler while it holds it).
+struct G<'a>(Option<MutexGuard<'a, Inner>>);
+impl<'a> std::ops::Deref for G<'a> {
+    type Target = Inner;
+    fn deref(&self) -> &Inner {
+        self.0.as_ref().unwrap()
+    }
+}
+impl<'a> std::ops::DerefMut for G<'a> {
+    fn deref_mut(&mut self) -> &mut Inner {
+        self.0.as_mut().unwrap()
+    }
+}
+impl<'a> Drop for G<'a> {
+    fn drop(&mut self) {
+        self.0.take();
+        bbguard::leave_internal();
+    }
+}
+
+/// A stretch of the simulator's own code on the current thread (see `G`).
+pub(crate) struct InternalSection;
+impl InternalSection {
+    #[inline]
+    pub(crate) fn new() -> Self {
+        bbguard::enter_internal();
+        InternalSection
+    }
+}
+impl Drop for InternalSection {
+    #[inline]
+    fn drop(&mut self) {
+        bbguard::leave_internal();
+    }
+}
+
+const FUTEX_WAITING: u8 = 0;
+const FUTEX_WOKEN: u8 = 1;
 
 thread_local! {
     static CURRENT: RefCell<Option<(Arc<Sim>, usize, usize)>> = const { RefCell::new(None) };
@@ -478,6 +562,14 @@ impl Inner {
             };
         }
         let w = &self.pools[self.active].workers[t];
+        if let Some(f) = &w.futex {
+            return w.futex_timeout || f.load(Ordering::SeqCst) != FUTEX_WAITING;
+        }
+        // A worker that was preempted (parked at a voluntary yield point) can always go on, whatever
+        // its bookkeeping status says: a guard may fire between `status = Waiting` and the wait itself.
+        if !matches!(w.parked_at, None | Some(YieldKind::Wait) | Some(YieldKind::Idle) | Some(YieldKind::Blocked)) {
+            return true;
+        }
         match w.status {
             Status::Running => true,
             Status::Idle => !w.deque.is_empty() || self.stealable_for(t),
@@ -526,7 +618,7 @@ impl Inner {
         let mut n = 0;
         for (i, w) in self.pools[self.active].workers.iter().enumerate() {
             let k = if i == me { Some(me_kind) } else { w.parked_at };
-            if k == Some(YieldKind::Hook) {
+            if matches!(k, Some(YieldKind::Hook | YieldKind::Bb | YieldKind::BbRare | YieldKind::Blocked)) {
                 n += 1;
             }
         }
@@ -589,7 +681,10 @@ impl Sim {
             blocked: AtomicBool::new(false),
             hooks_live: AtomicBool::new(false),
             hooks_passed: AtomicU64::new(0),
+            bb_passed: AtomicU64::new(0),
         });
+        bbguard::set_sim_callback(Some(bb_callback));
+        bbguard::set_mode(bbguard::MODE_OFF);
         sim
     }
 
@@ -606,8 +701,17 @@ impl Sim {
         crate::clock::set_thread_sim_time(false);
     }
 
-    fn lock(&self) -> MutexGuard<'_, Inner> {
-        self.inner.lock().unwrap_or_else(|e| e.into_inner())
+    fn lock(&self) -> G<'_> {
+        bbguard::enter_internal();
+        G(Some(self.inner.lock().unwrap_or_else(|e| e.into_inner())))
+    }
+
+    /// Preempt at basic-block guards during subsequent operations (needs an instrumented library).
+    pub fn set_preempt_bb(self: &Arc<Sim>, on: bool) {
+        let mut g = self.lock();
+        let live = on && g.cfg.pool_sizes[g.active].max(1) > 1 && g.cfg.sched != SchedMode::Seq && g.cfg.sched != SchedMode::Rev;
+        g.cfg.preempt_bb = live;
+        bbguard::set_mode(if live { bbguard::MODE_SIM } else { bbguard::MODE_OFF });
     }
 
     /// Select the pool used by subsequent operations (driver only).
@@ -635,6 +739,8 @@ impl Sim {
         let passed = self.hooks_passed.load(Ordering::Relaxed);
         st.hook_yields += passed;
         st.yields += passed;
+        st.bb_guards_passed = self.bb_passed.load(Ordering::Relaxed);
+        st.futex_wakes = FUTEX_WAKES.load(Ordering::Relaxed);
         st
     }
 
@@ -686,6 +792,8 @@ impl Sim {
                 priority: prios[idx],
                 handle: Some(handle),
                 ran_anything: false,
+                futex: None,
+                futex_timeout: false,
             });
         }
     }
@@ -701,8 +809,13 @@ impl Sim {
     }
 
     /// Hand the token from `me` to `next` and park until it comes back.
-    fn handoff(self: &Arc<Sim>, mut g: MutexGuard<'_, Inner>, me: usize, kind: YieldKind, next: usize) {
+    fn handoff(self: &Arc<Sim>, mut g: G<'_>, me: usize, kind: YieldKind, next: usize) {
         debug_assert!(me != next);
+        if std::env::var_os("SIM_DEBUG").is_some() {
+            let a = g.active;
+            let st: Vec<String> = g.pools[a].workers.iter().map(|w| format!("{:?}/{:?}/d{}", w.status, w.parked_at, w.deque.len())).collect();
+            eprintln!("handoff {} -> {} kind {:?} workers {:?} driver_wait {:?}", me as isize, next as isize, kind, st, g.driver_wait);
+        }
         g.current = next;
         g.stats.context_switches += 1;
         if me != DRIVER {
@@ -718,6 +831,7 @@ impl Sim {
 
     fn park(self: &Arc<Sim>, me: usize, mp: &Parker) {
         // the harness' own waiting and its watchdog run on real time
+        let _i = InternalSection::new();
         let sim_time = crate::clock::set_thread_sim_time(false);
         self.park_real(me, mp);
         crate::clock::set_thread_sim_time(sim_time);
@@ -753,18 +867,33 @@ impl Sim {
 
     /// The scheduler. Called by the token holder `me` at a yield point.
     fn yield_point(self: &Arc<Sim>, me: usize, kind: YieldKind) {
+        let _i = InternalSection::new();
         self.progress.fetch_add(1, Ordering::Relaxed);
         let mut g = self.lock();
+        if g.shutdown || (me != DRIVER && current_pool() != g.active) {
+            // the simulation is being torn down (all threads were released at once), or this is a
+            // left-over of an earlier operation on another pool: nothing to schedule
+            return;
+        }
         debug_assert_eq!(g.current, me, "yield from a thread that does not hold the token");
         g.stats.yields += 1;
         g.stats.scheduler_steps += 1;
-        if kind == YieldKind::Hook {
-            g.stats.hook_yields += 1;
+        match kind {
+            YieldKind::Hook => g.stats.hook_yields += 1,
+            YieldKind::Bb => g.stats.bb_yields += 1,
+            YieldKind::BbRare => g.stats.bb_rare_yields += 1,
+            _ => {}
         }
-        let forced = matches!(kind, YieldKind::Wait | YieldKind::Idle);
+        let forced = matches!(kind, YieldKind::Wait | YieldKind::Idle | YieldKind::Blocked);
         let boundary = matches!(
             kind,
-            YieldKind::JobStart | YieldKind::JoinPush | YieldKind::JobEnd | YieldKind::LeafEnd | YieldKind::Shared
+            YieldKind::JobStart
+                | YieldKind::JoinPush
+                | YieldKind::JobEnd
+                | YieldKind::LeafEnd
+                | YieldKind::Shared
+                | YieldKind::BbRare
+                | YieldKind::Sleep
         );
         g.policy.step += 1;
         // clock seam: time passes at scheduling points, by the plan of this operation
@@ -785,6 +914,9 @@ impl Sim {
             if kind == YieldKind::Hook && !g.cfg.preempt_hooks {
                 return;
             }
+            if matches!(kind, YieldKind::Bb | YieldKind::BbRare) && !g.cfg.preempt_bb {
+                return;
+            }
             if k <= 1 {
                 return;
             }
@@ -792,12 +924,37 @@ impl Sim {
 
         // Decide who runs next. `None` = keep running.
         let next: Option<usize> = if forced {
-            let mut set = g.runnable_set();
-            g.filter_stalled(&mut set);
-            if set.is_empty() {
+            let mut waited_ms = 0u64;
+            let mut set = loop {
+                let mut set = g.runnable_set();
+                g.filter_stalled(&mut set);
+                if kind == YieldKind::Blocked {
+                    // somebody else has to run for this wait to end; only when nobody can and the
+                    // wait may end by itself (timeout, or woken meanwhile) does the waiter go on
+                    if set.iter().any(|&t| t != me) {
+                        set.retain(|&t| t != me);
+                    } else if !set.is_empty() {
+                        return;
+                    }
+                }
+                if !set.is_empty() {
+                    break set;
+                }
+                let a = g.active;
+                let waiting_on_futex = g.pools[a].workers.iter().filter(|w| w.futex.is_some()).count();
                 drop(g);
-                panic!("sim_rayon: no runnable thread (deadlock in simulated program?)");
-            }
+                if waiting_on_futex == 0 {
+                    sim_fatal("no runnable thread although nobody waits on a futex");
+                }
+                // Every simulated thread waits on a futex. Only a thread outside the simulation
+                // could still wake one of them; give it a moment of real time.
+                if waited_ms >= 3000 {
+                    on_deadlock(waiting_on_futex);
+                }
+                thread::sleep(Duration::from_millis(2));
+                waited_ms += 2;
+                g = self.lock();
+            };
             if g.cfg.sched == SchedMode::Pct && set.iter().any(|&t| t != DRIVER) {
                 let a = g.active;
                 set.iter()
@@ -866,7 +1023,7 @@ impl Sim {
                         && !p.stalled
                         && me == p.stall_victim
                         && p.step >= p.stall_at
-                        && matches!(kind, YieldKind::Item | YieldKind::Hook)
+                        && matches!(kind, YieldKind::Item | YieldKind::Hook | YieldKind::Bb | YieldKind::BbRare)
                     {
                         let others: Vec<usize> =
                             g.runnable_set().into_iter().filter(|&t| t != me && t != DRIVER).collect();
@@ -895,6 +1052,8 @@ impl Sim {
             YieldKind::Item => g.stats.preempt_item += 1,
             YieldKind::Hook => g.stats.preempt_hook += 1,
             YieldKind::JoinPush => g.stats.preempt_join += 1,
+            YieldKind::Bb => g.stats.preempt_bb += 1,
+            YieldKind::BbRare => g.stats.preempt_bb_rare += 1,
             _ => {}
         }
         let inf = g.in_flight(me, kind);
@@ -940,6 +1099,18 @@ impl Sim {
                 g.policy.clock_jump_ns = [10_000_000u64, 300_000_000, 3_000_000_000, 30_000_000_000, 3_600_000_000_000][e as usize];
             }
             _ => {}
+        }
+        if g.cfg.preempt_bb {
+            // rare-site selection of this operation: a salt made of two decisions (0 = none)
+            let salt = if g.choose(4) == 0 {
+                0
+            } else {
+                let hi = g.choose(1 << 31);
+                let lo = g.choose(1 << 31);
+                (hi << 31) | lo
+            };
+            bbguard::set_salt(salt);
+            bbguard::reset_hits();
         }
         let k = g.k() as u64;
         match g.cfg.sched {
@@ -1024,7 +1195,7 @@ impl Sim {
     fn execute(self: &Arc<Sim>, me: usize, jr: JobRef) {
         {
             let mut g = self.lock();
-            let a = g.active;
+            let a = current_pool();
             let w = &mut g.pools[a].workers[me];
             w.depth += 1;
             w.ran_anything = true;
@@ -1033,12 +1204,14 @@ impl Sim {
             }
         }
         self.yield_point(me, YieldKind::JobStart);
+        // the first guard of a job consults the scheduler (which then draws the countdown)
+        bbguard::set_skip(0);
         let migrated = jr.origin != me && jr.origin != usize::MAX;
         unsafe { (jr.exec)(jr.data, migrated) };
         {
             let mut g = self.lock();
             g.finished_jobs.insert(jr.id);
-            let a = g.active;
+            let a = current_pool();
             g.pools[a].workers[me].depth -= 1;
         }
         self.yield_point(me, YieldKind::JobEnd);
@@ -1047,7 +1220,7 @@ impl Sim {
     /// Find a job for worker `me` (own deque first when `own`), or None.
     fn find_work(self: &Arc<Sim>, me: usize, own: bool) -> Option<JobRef> {
         let mut g = self.lock();
-        let a = g.active;
+        let a = current_pool();
         if own {
             if let Some(j) = g.pools[a].workers[me].deque.pop_back() {
                 return Some(j);
@@ -1092,7 +1265,7 @@ impl Sim {
             g.next_job_id += 1;
             g.stats.joins += 1;
             let jr = job_b.job_ref(id, me);
-            let ac = g.active;
+            let ac = current_pool();
             g.pools[ac].workers[me].deque.push_back(jr);
         }
         self.yield_point(me, YieldKind::JoinPush);
@@ -1104,7 +1277,7 @@ impl Sim {
             }
             let popped = {
                 let mut g = self.lock();
-                let ac = g.active;
+                let ac = current_pool();
                 g.pools[ac].workers[me].deque.pop_back()
             };
             match popped {
@@ -1123,7 +1296,7 @@ impl Sim {
                     // stolen: wait, stealing other work meanwhile
                     {
                         let mut g = self.lock();
-                        let ac = g.active;
+                        let ac = current_pool();
                         g.pools[ac].workers[me].status = Status::Waiting(id);
                     }
                     loop {
@@ -1138,17 +1311,17 @@ impl Sim {
                         if let Some(j) = self.find_work(me, true) {
                             {
                                 let mut g = self.lock();
-                                let ac = g.active;
+                                let ac = current_pool();
                                 g.pools[ac].workers[me].status = Status::Running;
                             }
                             self.execute(me, j);
                             let mut g = self.lock();
-                            let ac = g.active;
+                            let ac = current_pool();
                             g.pools[ac].workers[me].status = Status::Waiting(id);
                         }
                     }
                     let mut g = self.lock();
-                    let ac = g.active;
+                    let ac = current_pool();
                     g.pools[ac].workers[me].status = Status::Running;
                     break;
                 }
@@ -1172,11 +1345,45 @@ fn on_blocked() -> ! {
     std::process::exit(EXIT_BLOCKED);
 }
 
+/// Exit code for an inconsistency of the simulator itself (a harness error, never a verdict).
+pub const EXIT_SIM_FATAL: i32 = 5;
+
+pub(crate) fn sim_fatal(msg: &str) -> ! {
+    println!("SIM-FATAL {}", msg);
+    eprintln!("SIM-FATAL {}", msg);
+    use std::io::Write;
+    let _ = std::io::stdout().flush();
+    std::process::exit(EXIT_SIM_FATAL);
+}
+
+/// Exit code of a simulated process in which every thread waits on a futex for good.
+pub const EXIT_DEADLOCK: i32 = 4;
+
+fn on_deadlock(waiting: usize) -> ! {
+    println!(
+        "E1-DEADLOCK every runnable thread of the simulated program waits on a futex (lock, condvar, channel); {} waiters, no wake in 3 s of real time",
+        waiting
+    );
+    use std::io::Write;
+    let _ = std::io::stdout().flush();
+    std::process::exit(EXIT_DEADLOCK);
+}
+
 fn worker_main(sim: Arc<Sim>, pool_idx: usize, idx: usize, parker: Arc<Parker>) {
     CURRENT.with(|c| *c.borrow_mut() = Some((sim.clone(), pool_idx, idx)));
     crate::clock::set_thread_sim_time(true);
+    bbguard::set_thread_worker(true);
     // wait for the first token
     sim.park_worker_initial(&parker);
+    // user panics are caught where jobs run; anything that unwinds up to here is a bug of the simulator
+    let r = panic::catch_unwind(AssertUnwindSafe(|| worker_loop(&sim, idx)));
+    if let Err(p) = r {
+        let msg = p.downcast_ref::<&str>().map(|s| s.to_string()).or_else(|| p.downcast_ref::<String>().cloned()).unwrap_or_default();
+        sim_fatal(&format!("worker {} of pool {} unwound out of the scheduler: {}", idx, pool_idx, msg));
+    }
+}
+
+fn worker_loop(sim: &Arc<Sim>, idx: usize) {
     loop {
         if sim.lock().shutdown {
             return;
@@ -1185,12 +1392,15 @@ fn worker_main(sim: Arc<Sim>, pool_idx: usize, idx: usize, parker: Arc<Parker>) 
             Some(j) => {
                 {
                     let mut g = sim.lock();
-                    let a = g.active;
+                    let a = current_pool();
                     g.pools[a].workers[idx].status = Status::Running;
                 }
                 sim.execute(idx, j);
                 let mut g = sim.lock();
-                let a = g.active;
+                if g.shutdown {
+                    return;
+                }
+                let a = current_pool();
                 g.pools[a].workers[idx].status = Status::Idle;
             }
             None => {
@@ -1202,6 +1412,7 @@ fn worker_main(sim: Arc<Sim>, pool_idx: usize, idx: usize, parker: Arc<Parker>) 
 
 impl Sim {
     fn park_worker_initial(self: &Arc<Sim>, parker: &Parker) {
+        let _i = InternalSection::new();
         let sim_time = crate::clock::set_thread_sim_time(false);
         loop {
             if parker.go.swap(false, Ordering::SeqCst) {
@@ -1221,6 +1432,7 @@ impl Sim {
 
     /// Stop all workers (driver only). The simulation cannot be used afterwards.
     pub fn shutdown(self: &Arc<Sim>) {
+        bbguard::set_mode(bbguard::MODE_OFF);
         let handles: Vec<(Arc<Parker>, JoinHandle<()>)> = {
             let mut g = self.lock();
             g.shutdown = true;
@@ -1284,6 +1496,11 @@ fn flush_hooks_passed(sim: &Arc<Sim>) {
         sim.hooks_passed.fetch_add(n, Ordering::Relaxed);
         sim.progress.fetch_add(n, Ordering::Relaxed);
     }
+    let b = bbguard::take_passed();
+    if b > 0 {
+        sim.bb_passed.fetch_add(b, Ordering::Relaxed);
+        sim.progress.fetch_add(b, Ordering::Relaxed);
+    }
 }
 
 thread_local! {
@@ -1292,6 +1509,153 @@ thread_local! {
 
 thread_local! {
     static HOOK_SKIP: std::cell::Cell<u32> = const { std::cell::Cell::new(0) };
+}
+
+/// Target of the basic-block guards (see `bbguard`): called on a worker that is not inside the
+/// simulator, when its countdown ran out or at a selected rare site.
+fn bb_callback(kind: u32) {
+    let cur = CURRENT.try_with(|c| c.borrow().as_ref().map(|(s, _, i)| (s.clone(), *i))).ok().flatten();
+    let (sim, me) = match cur {
+        Some((sim, me)) if me != DRIVER => (sim, me),
+        _ => {
+            bbguard::set_skip(1 << 16);
+            return;
+        }
+    };
+    flush_hooks_passed(&sim);
+    if kind == bbguard::KIND_RARE_SITE {
+        sim.yield_point(me, YieldKind::BbRare);
+    } else {
+        sim.yield_point(me, YieldKind::Bb);
+        let d = sim.lock().choose(10);
+        bbguard::set_skip([0u32, 1, 3, 7, 31, 127, 511, 2047, 8191, 65535][d as usize]);
+    }
+}
+
+// ---------------------------------------------------------------------------
+// Emulated futex and sleep (called from the interposed system calls in `sys`)
+// ---------------------------------------------------------------------------
+
+struct FWaiter {
+    addr: usize,
+    flag: Arc<AtomicU8>,
+}
+static FUTEX_REG: Mutex<Vec<FWaiter>> = Mutex::new(Vec::new());
+static FUTEX_REG_LEN: std::sync::atomic::AtomicUsize = std::sync::atomic::AtomicUsize::new(0);
+static FUTEX_WAKES: AtomicU64 = AtomicU64::new(0);
+
+pub(crate) enum FutexWait {
+    /// Not a thread this simulation schedules: do the real system call.
+    PassThrough,
+    /// `*addr != expected`
+    Again,
+    Woken,
+    TimedOut,
+}
+
+/// FUTEX_WAIT on a worker of a simulation: the worker is parked *in the simulator* until another
+/// thread's FUTEX_WAKE on the address (or, for a wait with a timeout, until the scheduler lets the
+/// timeout fire, which is always legal: the others were slow). `timeout_ns`: time left, if any.
+///
+/// # Safety
+/// `addr` must point to a live, aligned `u32`.
+pub(crate) unsafe fn futex_wait_emulated(addr: usize, expected: u32, timeout_ns: Option<u64>) -> FutexWait {
+    let _i = InternalSection::new();
+    let cur = CURRENT.try_with(|c| c.borrow().as_ref().map(|(s, _, i)| (s.clone(), *i))).ok().flatten();
+    let (sim, me) = match cur {
+        Some((sim, me)) if me != DRIVER => (sim, me),
+        _ => return FutexWait::PassThrough,
+    };
+    if sim.lock().current != me {
+        // not holding the token (cannot happen for code the scheduler released); be safe
+        return FutexWait::PassThrough;
+    }
+    let flag = Arc::new(AtomicU8::new(FUTEX_WAITING));
+    {
+        let mut r = FUTEX_REG.lock().unwrap_or_else(|e| e.into_inner());
+        if (*(addr as *const std::sync::atomic::AtomicU32)).load(Ordering::SeqCst) != expected {
+            return FutexWait::Again;
+        }
+        r.push(FWaiter { addr, flag: flag.clone() });
+        FUTEX_REG_LEN.store(r.len(), Ordering::SeqCst);
+    }
+    {
+        let mut g = sim.lock();
+        g.stats.futex_waits += 1;
+        let a = current_pool();
+        g.pools[a].workers[me].futex = Some(flag.clone());
+        g.pools[a].workers[me].futex_timeout = timeout_ns.is_some();
+    }
+    flush_hooks_passed(&sim);
+    sim.yield_point(me, YieldKind::Blocked);
+    {
+        let mut g = sim.lock();
+        let a = current_pool();
+        g.pools[a].workers[me].futex = None;
+        g.pools[a].workers[me].futex_timeout = false;
+    }
+    {
+        let mut r = FUTEX_REG.lock().unwrap_or_else(|e| e.into_inner());
+        r.retain(|w| !Arc::ptr_eq(&w.flag, &flag));
+        FUTEX_REG_LEN.store(r.len(), Ordering::SeqCst);
+    }
+    if flag.load(Ordering::SeqCst) == FUTEX_WOKEN {
+        FutexWait::Woken
+    } else {
+        // the timeout fired: simulated time has passed
+        let ns = timeout_ns.unwrap_or(0);
+        crate::clock::advance_ns(ns.min(i64::MAX as u64) as i64);
+        let mut g = sim.lock();
+        g.stats.futex_timeouts += 1;
+        g.stats.clock_ns_added += ns;
+        FutexWait::TimedOut
+    }
+}
+
+/// FUTEX_WAKE from any thread of the process: releases up to `n` workers parked by
+/// `futex_wait_emulated` on `addr`; returns how many (the real system call is made as well).
+pub(crate) fn futex_wake_emulated(addr: usize, n: usize) -> usize {
+    if FUTEX_REG_LEN.load(Ordering::SeqCst) == 0 {
+        return 0;
+    }
+    let _i = InternalSection::new();
+    let mut r = FUTEX_REG.lock().unwrap_or_else(|e| e.into_inner());
+    let mut k = 0;
+    r.retain(|w| {
+        if k < n && w.addr == addr {
+            w.flag.store(FUTEX_WOKEN, Ordering::SeqCst);
+            k += 1;
+            false
+        } else {
+            true
+        }
+    });
+    FUTEX_REG_LEN.store(r.len(), Ordering::SeqCst);
+    FUTEX_WAKES.fetch_add(k as u64, Ordering::Relaxed);
+    k
+}
+
+/// `nanosleep` & co. on a thread that lives on simulated time: the time passes on the simulated
+/// clock, not on the wall; a worker also offers the scheduler a switch. False: do the real call.
+pub(crate) fn sleep_emulated(ns: u64) -> bool {
+    if !crate::clock::thread_on_sim_time() {
+        return false;
+    }
+    let _i = InternalSection::new();
+    crate::clock::advance_ns(ns.min(i64::MAX as u64) as i64);
+    let cur = CURRENT.try_with(|c| c.borrow().as_ref().map(|(s, _, i)| (s.clone(), *i))).ok().flatten();
+    if let Some((sim, me)) = cur {
+        {
+            let mut g = sim.lock();
+            g.stats.sleeps_simulated += 1;
+            g.stats.clock_ns_added += ns;
+        }
+        if me != DRIVER && sim.lock().current == me {
+            flush_hooks_passed(&sim);
+            sim.yield_point(me, YieldKind::Sleep);
+        }
+    }
+    true
 }
 
 pub(crate) fn item_boundary(leaf_path: u64, item_no: u64, base_index: u64) {
@@ -1725,12 +2089,12 @@ where
                         // somebody else is running our jobs
                         {
                             let mut g = sim.lock();
-                            let a = g.active;
+                            let a = current_pool();
                             g.pools[a].workers[me].status = Status::Waiting(latch_id);
                         }
                         sim.yield_point(me, YieldKind::Wait);
                         let mut g = sim.lock();
-                        let a = g.active;
+                        let a = current_pool();
                         g.pools[a].workers[me].status = Status::Running;
                     }
                 }
